@@ -160,3 +160,19 @@ PROPS.update({
         "assumptions": SM2_ASSUME + SM9_ASSUME[2:3] + ["'OS-seeded' is only observable as non-repetition across calls/threads/processes plus bit statistics"],
     },
 })
+
+PROPS.update({
+    "C19": {
+        "level": "exploration",
+        "profiles": BOTH,
+        "rule": "every encoder/decoder pair of SM2 keys (SEC1 compressed/uncompressed, hex, SPKI DER/PEM, FromStr, bytes, PKCS#8 DER/PEM, SEC1 DER) on edge/random keys incl. public points with leading zero bytes and both parities: decoded key equals the reference (d,[d]G), library DER equals the harness' own DER writer and OpenSSL's bytes, OpenSSL documents decode; encrypt_asn1 with injected k (incl. crafted C1 with 1..3 leading/trailing zero bytes, top bit set/clear) must be exactly SEQUENCE{C1.x, C1.y, C3, C2} of the reference ciphertext and decrypt_asn1 must invert it and accept OpenSSL SM2Cipher documents; off-curve points, coordinates >= p, wrong lengths and wrong point-format bytes must be rejected by every decoder. Distinct by key / (d,k,msg,flags) / rejected bytes",
+        "assumptions": SM2_ASSUME + ["own minimal strict DER reader/writer (4 shapes), cross-checked against OpenSSL's bytes on every run", "zero-coordinate ephemeral scalars come from a one-time scan and are re-confirmed by the reference on every run"],
+    },
+    "C20": {
+        "level": "fault_enumeration",
+        "profiles": {"quick": ["checked", "release"], "thorough": ["checked", "release"]},
+        "watchdog_is_violation": True,
+        "rule": "for each byte-consuming entry point (SM2 verify, decrypt x4 layouts, decrypt_asn1, public/private key decoders for bytes, hex, DER, PEM, FromStr, kdf, compute_za; SM4 cipher/mode construction, block and mode encrypt/decrypt, IV lengths; SM9 decrypt, verify_sign with arbitrary h and S, mod_n_from_hash): every input length 0..=200 in three content classes, every truncation and three corruptions of every byte of valid encodings (reference-made and OpenSSL-made), crafted DER/PEM documents, boundary private keys {0,1,2,n-2,n-1,n,n+1,p-1,p,2^256-1} followed by sign/encrypt; outcome class must be Ok or Err; panic (incl. overflow/assert in the checked profile), >64 RNG draws in one call (load-independent hang oracle), abort (journal) are violations. Both build profiles in both tiers. Distinct by (entry point, input bytes)",
+        "assumptions": BASE_ASSUME + ["hang oracle = RNG draw counter (every retry loop of the library draws a candidate) plus a wall-clock watchdog per shard", "ZUC/EEA/EIA entry points have no error channel and are not in the property's list"],
+    },
+})
